@@ -8,10 +8,17 @@
 package hcdaemon
 
 import (
+	"encoding/base64"
+	"fmt"
+
 	"context"
 	"crypto/tls"
 	"crypto/x509"
 	"crypto/x509/pkix"
+	"github.com/attestantio/dirk/services/fetcher"
+	memfetcher "github.com/attestantio/dirk/services/fetcher/mem"
+	"github.com/attestantio/dirk/services/sender"
+	sendergrpc "github.com/attestantio/dirk/services/sender/grpc"
 	"net"
 
 	"github.com/attestantio/dirk/core"
@@ -42,9 +49,11 @@ var serverCertPEM = []byte("-----BEGIN CERTIFICATE-----\nTEVBRjpzaWduZXItdGVzdDA
 const adminIP = "10.1.2.3"
 
 type daemon struct {
-	in   *hc.Instance
-	log  *stubs.Log
-	proc *standardprocess.Service
+	in       *hc.Instance
+	log      *stubs.Log
+	proc     *standardprocess.Service
+	store    *stubs.Store
+	dfetcher *memfetcher.Service
 }
 
 // nopSender: the instance never initiates a generation in these harnesses.
@@ -63,38 +72,62 @@ func (nopSender) SendContribution(ctx context.Context, peer *core.Endpoint, acco
 }
 
 // start assembles the API server of instance 1 of peers {1,2,3} and starts serving.
-func start(perms map[string][]*checker.Permissions) *daemon {
+func start(perms map[string][]*checker.Permissions) *daemon { return startNode(1, perms, false) }
+
+var peerAddresses = map[uint64]string{1: "signer-test01:8881", 2: "signer-test02:8882", 3: "signer-test03:8883"}
+
+func leafPEM(name string) []byte {
+	return []byte("-----BEGIN CERTIFICATE-----\n" + base64.StdEncoding.EncodeToString([]byte("LEAF:"+name)) + "\n-----END CERTIFICATE-----\n")
+}
+
+// startNode assembles instance id; with realSender its process service talks to its peers through the
+// real gRPC sender (services/sender/grpc) over the model's loop-back transport.
+func startNode(id uint64, perms map[string][]*checker.Permissions, realSender bool) *daemon {
 	bg := context.Background()
+	name := fmt.Sprintf("signer-test%02d", id)
 	hc.Must(e2types.InitBLS())
 	d := &daemon{log: &stubs.Log{}}
 	ck, err := staticchecker.New(bg, staticchecker.WithPermissions(perms))
 	hc.Must(err)
-	d.in = hc.Start(bg, vsym.TempDir("A"), d.log, &hc.Deps{Checker: ck, AdminIPs: []string{adminIP}})
-	fetcher := &stubs.Fetcher{Wallets: []*stubs.Wallet{d.in.Wallet}, L: d.log}
+	d.in = hc.Start(bg, vsym.TempDir(fmt.Sprintf("N%d", id)), d.log, &hc.Deps{Checker: ck, AdminIPs: []string{adminIP}})
+	stubFetcher := &stubs.Fetcher{Wallets: []*stubs.Wallet{d.in.Wallet}, L: d.log}
 	unlocker := &stubs.Unlocker{L: d.log, Knows: true}
-	ls, err := standardlister.New(bg, standardlister.WithChecker(ck), standardlister.WithFetcher(fetcher), standardlister.WithRuler(d.in.Ruler))
+	ls, err := standardlister.New(bg, standardlister.WithChecker(ck), standardlister.WithFetcher(stubFetcher), standardlister.WithRuler(d.in.Ruler))
 	hc.Must(err)
-	peers, err := staticpeers.New(bg, staticpeers.WithPeers(map[uint64]string{1: "signer-test01:8881", 2: "signer-test02:8882", 3: "signer-test03:8883"}))
+	peers, err := staticpeers.New(bg, staticpeers.WithPeers(peerAddresses))
 	hc.Must(err)
-	dw := stubs.NewDWallet(d.log, "DW", "distributed", 0)
-	store := &stubs.Store{N: "store1", Ws: []*stubs.DWallet{dw}}
+	dw := stubs.NewDWallet(d.log, "DW", "distributed", byte(id))
+	store := &stubs.Store{N: fmt.Sprintf("store%d", id), Ws: []*stubs.DWallet{dw}}
+	d.store = store
+	var snd sender.Service = nopSender{}
+	if realSender {
+		snd, err = sendergrpc.New(bg, sendergrpc.WithName(name), sendergrpc.WithServerCert(leafPEM(name)), sendergrpc.WithServerKey([]byte("key")), sendergrpc.WithCACert(caPEM))
+		hc.Must(err)
+		// generated accounts live in the distributed wallet: the fetcher must serve that store
+		mf, merr := memfetcher.New(bg, memfetcher.WithStores([]e2wtypes.Store{store}), memfetcher.WithEncryptor(stubs.Encryptor{}))
+		hc.Must(merr)
+		d.dfetcher = mf
+	}
+	var pf fetcher.Service = stubFetcher
+	if d.dfetcher != nil {
+		pf = d.dfetcher
+	}
 	d.proc, err = standardprocess.New(bg,
-		standardprocess.WithChecker(ck), standardprocess.WithGenerationPassphrase([]byte("secret")), standardprocess.WithID(1),
-		standardprocess.WithPeers(peers), standardprocess.WithSender(nopSender{}), standardprocess.WithFetcher(fetcher),
+		standardprocess.WithChecker(ck), standardprocess.WithGenerationPassphrase([]byte("secret")), standardprocess.WithID(id),
+		standardprocess.WithPeers(peers), standardprocess.WithSender(snd), standardprocess.WithFetcher(pf),
 		standardprocess.WithStores([]e2wtypes.Store{store}), standardprocess.WithUnlocker(unlocker), standardprocess.WithEncryptor(stubs.Encryptor{}))
 	hc.Must(err)
-	am, err := standardaccountmanager.New(bg, standardaccountmanager.WithChecker(ck), standardaccountmanager.WithFetcher(fetcher),
+	am, err := standardaccountmanager.New(bg, standardaccountmanager.WithChecker(ck), standardaccountmanager.WithFetcher(stubFetcher),
 		standardaccountmanager.WithUnlocker(unlocker), standardaccountmanager.WithRuler(d.in.Ruler), standardaccountmanager.WithProcess(d.proc))
 	hc.Must(err)
-	wm, err := standardwalletmanager.New(bg, standardwalletmanager.WithChecker(ck), standardwalletmanager.WithFetcher(fetcher),
+	wm, err := standardwalletmanager.New(bg, standardwalletmanager.WithChecker(ck), standardwalletmanager.WithFetcher(stubFetcher),
 		standardwalletmanager.WithUnlocker(unlocker), standardwalletmanager.WithRuler(d.in.Ruler))
 	hc.Must(err)
 	_, err = grpcapi.New(bg,
 		grpcapi.WithSigner(d.in.Signer), grpcapi.WithLister(ls), grpcapi.WithProcess(d.proc), grpcapi.WithWalletManager(wm),
-		grpcapi.WithAccountManager(am), grpcapi.WithPeers(peers), grpcapi.WithName("signer-test01"), grpcapi.WithID(1),
-		grpcapi.WithListenAddress("0.0.0.0:8881"), grpcapi.WithServerCert(serverCertPEM), grpcapi.WithServerKey([]byte("key")), grpcapi.WithCACert(caPEM))
+		grpcapi.WithAccountManager(am), grpcapi.WithPeers(peers), grpcapi.WithName(name), grpcapi.WithID(id),
+		grpcapi.WithListenAddress(fmt.Sprintf("0.0.0.0:%d", 8880+id)), grpcapi.WithServerCert(leafPEM(name)), grpcapi.WithServerKey([]byte("key")), grpcapi.WithCACert(caPEM))
 	hc.Must(err)
-	vsym.Assume(vsym.Rec("served") == "1")
 	return d
 }
 
